@@ -544,6 +544,24 @@ def run_case(case):
                                  "key": f"C01/bad-{what}-accepted/{k}",
                                  "detail": f"pipeline {names} with {what} of step {names[i]} invalid "
                                            f"({pipe[names[i]]}) was accepted"})
+                    continue
+                # the same invalid pipeline on a machine that already checked and ran the valid one
+                m = fresh_machine()
+                v0, cfg0 = do_check(m, build_pipeline(seq, names))
+                if v0 != "accepted":
+                    continue
+                _, err0, _ = run_logged(m, cfg0)
+                if err0 is not None or machine_clean(m):
+                    continue  # judged by the history spaces
+                verdict, _ = do_check(m, pipe)
+                n += len(seq)
+                sigs.append(f"B|{names}|{i}|{what}|after-run|{verdict}")
+                if verdict == "accepted":
+                    viol.append({"clause": "registered-method-and-valid-parameters",
+                                 "key": f"C01/bad-{what}-accepted/{k}/on a machine that already ran",
+                                 "detail": f"pipeline {names} with {what} of step {names[i]} invalid "
+                                           f"({pipe[names[i]]}) was accepted by a machine that had checked and run "
+                                           f"the valid pipeline before (a fresh machine refuses it)"})
         return {"n": n, "sigs": sigs, "viol": viol}
     if kind == "deep":
         return deep_bfs(case["depth"])
